@@ -7,5 +7,6 @@ INIT GInit
 NEXT GNext
 INVARIANT GRefines
 INVARIANT CacheCoherent
+INVARIANT NoRunWithErrors
 VIEW GView
 CHECK_DEADLOCK FALSE
